@@ -62,6 +62,53 @@ thread_local! {
 
 pub type Inst<T> = Arc<dyn Fft<T>>;
 
+/// The bound checks RustFFT keeps only in debug builds (`debug_assert!(<expr>)` guarding an unchecked access), read
+/// from /repo's sources. In the sanitizer flavour (debug assertions on) a panic "assertion failed: <expr>" with one of
+/// these expressions means: the shipped build performs that access out of range.
+pub fn debug_assert_exprs() -> &'static Vec<String> {
+    static EXPRS: std::sync::OnceLock<Vec<String>> = std::sync::OnceLock::new();
+    EXPRS.get_or_init(|| {
+        let mut out = Vec::new();
+        if !cfg!(debug_assertions) {
+            return out;
+        }
+        fn walk(dir: &std::path::Path, out: &mut Vec<String>) {
+            let Ok(rd) = std::fs::read_dir(dir) else { return };
+            for e in rd.flatten() {
+                let p = e.path();
+                if p.is_dir() {
+                    walk(&p, out);
+                } else if p.extension().map(|x| x == "rs").unwrap_or(false) {
+                    if let Ok(t) = std::fs::read_to_string(&p) {
+                        for l in t.lines() {
+                            let l = l.trim();
+                            if let Some(r) = l.strip_prefix("debug_assert!(") {
+                                if let Some(e) = r.strip_suffix(");") {
+                                    if !out.iter().any(|x| x == e) {
+                                        out.push(e.to_string());
+                                    }
+                                }
+                            }
+                        }
+                    }
+                }
+            }
+        }
+        walk(std::path::Path::new("/repo/src"), &mut out);
+        out
+    })
+}
+
+pub fn is_debug_bound_panic(msg: &str) -> bool {
+    if msg.contains("unsafe precondition(s) violated") {
+        return true;
+    }
+    match msg.strip_prefix("assertion failed: ") {
+        Some(e) => debug_assert_exprs().iter().any(|x| x == e),
+        None => false,
+    }
+}
+
 struct SharedBuf<T: Elem> {
     def: SharedBufDef,
     n: usize,
@@ -335,7 +382,11 @@ impl<T: Elem> World<T> {
                 if pl.downcast_ref::<SimAbort>().is_some() {
                     std::panic::resume_unwind(pl);
                 }
-                Err(panic_msg(&pl))
+                let m = panic_msg(&pl);
+                if is_debug_bound_panic(&m) {
+                    self.report(t, "c03.debug-bound-check", format!("a debug-only bound check guarding an unchecked access fired ({:?} n={} data={} out={} scratch={}): \"{}\" - the shipped build performs this access out of range", p.entry, fft.len(), p.input.len(), p.out_len, p.scratch_len, m));
+                }
+                Err(m)
             }
         };
         if let Ok(o) = &out {
@@ -508,6 +559,10 @@ impl<T: Elem> World<T> {
                 (l, l, adv)
             }
             ShapeFault::Out { delta } => (2 * n.max(1), ((2 * n.max(1)) as i64 + *delta).max(0) as usize, adv),
+            ShapeFault::OutChunks { k, dk } => {
+                let l = dl(*k, 0);
+                (l, (l as i64 + *dk as i64 * n as i64).max(0) as usize, adv)
+            }
             ShapeFault::ScratchZero => (n, n, 0),
             ShapeFault::ScratchMinus1 => (n, n, adv.saturating_sub(1)),
             ShapeFault::DataAndOut { k, delta, odelta } => {
